@@ -324,7 +324,7 @@ bool decode(const std::vector<double> &d, GridOut &o) {
   return true;
 }
 
-const double BUDGET_S = 30.; // a grid of 300 generators takes < 0.5 s
+const double BUDGET_S = 6.; // a grid of 300 generators takes < 0.5 s
 
 // returns "" or what went wrong ("timeout", "signal N", "abort: ...")
 template <class GRID>
@@ -591,14 +591,16 @@ VCase gen_grid(int maxn, bool nondegenerate_only) {
     break;
   }
   default: {
+    // distance scale to the walls: mostly 1e-9..1e-3 sides, 5% down to 1e-12
+    const double dlo = vr::coin(0.05) ? 1e-12 : 1e-9;
     for (int i = 0; i < n; ++i) {
+      const double dwall = vr::logu(dlo, 1e-3);
       std::vector<double> q = {vr::uni(1e-12, 1.), vr::uni(1e-12, 1.),
                                vr::uni(1e-12, 1.)};
       const int nw = (int)vr::irange(0, 3); // coordinates pushed to a wall
       for (int w = 0; w < nw; ++w) {
         const int k = (int)vr::irange(0, 2);
-        const double d = vr::logu(1e-12, 1e-3);
-        q[k] = vr::coin() ? d : 1. - d;
+        q[k] = vr::coin() ? dwall : 1. - dwall * vr::uni(0.5, 1.);
       }
       p.push_back(q);
     }
